@@ -84,6 +84,21 @@ PROPS["C07"] = dict(
     design="DESIGN.md §4 C07",
 )
 
+PROPS["C09"] = dict(
+    technique="static analysis: for-all shape of the completeness scan (CFG), guarded/ordered marking on a graph copy (dominance + origins), open-or-create mode constants, config table, copy-before-mutate",
+    text=(
+        "Decides the resume decision logic: already_computed can return true only after the loop over all "
+        "outputs completed, treats unequal initialised-chunk counts, zero-dimensional arrays, missing arrays "
+        "and the create-arrays node as not computed and refuses storage that cannot report completeness; "
+        "execute() writes `computed` marks only under `resume`, on a copy of the shared frozen graph, for "
+        "every node, before the executor call; skip_node honours exactly that key with a falsy default; "
+        "arrays are re-created with mode \"a\" and an open-on-exists fallback; every store backend writes empty "
+        "chunks. These are facts about every crash point at once; a test can inject a handful."
+    ),
+    note="Does not decide value equality of a resumed run (needs execution); zarr's nchunks_initialized and write atomicity are trusted.",
+    design="DESIGN.md §4 C09",
+)
+
 CLAIMED = sorted(PROPS)
 
 NOT_APPLICABLE = {
